@@ -53,6 +53,64 @@ def read_fact(call, what):
     return on_empty == 'minimal'
 
 
+STDOUT_PRELUDE_CALLS = {'getattr', 'locale.getpreferredencoding', 'codecs.lookup'}
+
+
+def stdout_prelude(mm):
+    """The statements that may precede `nbformat.write(merged, sys.stdout[, ensure_ascii=<flag expr>])` in its block:
+    nothing (the write alone, no keyword), or exactly
+        <enc> = <expression whose only calls are getattr / locale.getpreferredencoding / codecs.lookup>
+        try: <flag> = <such an expression>
+        except LookupError: <flag> = <literal bool>
+    (is the stream's encoding UTF-8?) with ensure_ascii=<flag> or ensure_ascii=not <flag>.  These statements touch no file
+    and catch nothing but LookupError, so they are no boundary of the model.  Returns the ids of all their AST nodes."""
+    def pure(e, what):
+        for n in ast.walk(e):
+            if isinstance(n, ast.Call):
+                if ast.unparse(n.func) not in STDOUT_PRELUDE_CALLS or any(k.arg is None for k in n.keywords) or any(isinstance(a, ast.Starred) for a in n.args):
+                    fail('main_merge: %s calls %s' % (what, ast.unparse(n.func)))
+            elif isinstance(n, (ast.Lambda, ast.Await, ast.Yield, ast.YieldFrom, ast.NamedExpr, ast.ListComp, ast.SetComp, ast.DictComp, ast.GeneratorExp)):
+                fail('main_merge: %s is not a plain expression' % what)
+    def simple_assign(st, what):
+        if not (isinstance(st, ast.Assign) and len(st.targets) == 1 and isinstance(st.targets[0], ast.Name)): fail('main_merge: %s' % what)
+        return st.targets[0].id
+    blocks = []
+    for n in ast.walk(mm):
+        for fld in ('body', 'orelse', 'finalbody'):
+            b = getattr(n, fld, None)
+            if isinstance(b, list): blocks.append(b)
+    found = []
+    for b in blocks:
+        for i, st in enumerate(b):
+            if isinstance(st, ast.Expr) and isinstance(st.value, ast.Call) and is_attr(st.value.func, 'nbformat', 'write') \
+               and len(st.value.args) == 2 and is_attr(st.value.args[1], 'sys', 'stdout'):
+                found.append((b, i, st.value))
+    if len(found) != 1: fail('main_merge: expected exactly one statement `nbformat.write(merged, sys.stdout, ...)`, found %d' % len(found))
+    b, i, call = found[0]
+    if i != len(b) - 1: fail('main_merge: statements after the write to sys.stdout in its block')
+    pre = b[:i]
+    if not call.keywords:
+        if pre: fail('main_merge: statements before the unguarded write to sys.stdout: %s' % ast.unparse(pre[0])[:60])
+        return set()
+    if len(call.keywords) != 1 or call.keywords[0].arg != 'ensure_ascii': fail('main_merge: keywords of the write to sys.stdout: %s' % ast.unparse(call))
+    if len(pre) != 2 or not isinstance(pre[1], ast.Try): fail('main_merge: the guard before the write to sys.stdout is not `<enc> = ...; try: <flag> = ... except LookupError: <flag> = <bool>`')
+    enc = simple_assign(pre[0], 'first statement of the stdout guard is not a simple assignment')
+    pure(pre[0].value, 'the stream-encoding expression')
+    tr = pre[1]
+    if len(tr.body) != 1 or tr.orelse or tr.finalbody or len(tr.handlers) != 1: fail('main_merge: shape of the try statement of the stdout guard')
+    flag = simple_assign(tr.body[0], 'try body of the stdout guard is not a simple assignment')
+    pure(tr.body[0].value, 'the is-it-UTF-8 expression')
+    h = tr.handlers[0]
+    if not is_name(h.type, 'LookupError') or h.name is not None or len(h.body) != 1: fail('main_merge: the stdout guard may only catch LookupError')
+    if simple_assign(h.body[0], 'handler of the stdout guard') != flag or not isinstance(h.body[0].value, ast.Constant) or not isinstance(h.body[0].value.value, bool):
+        fail('main_merge: the LookupError handler must set the flag to a literal bool')
+    if enc == flag or enc in ('merged', 'decisions', 'conflicted') or flag in ('merged', 'decisions', 'conflicted'): fail('main_merge: names used by the stdout guard')
+    v = call.keywords[0].value
+    if not (is_name(v, flag) or (isinstance(v, ast.UnaryOp) and isinstance(v.op, ast.Not) and is_name(v.operand, flag))):
+        fail('main_merge: ensure_ascii=%s is not the flag of the stdout guard (or its negation)' % ast.unparse(v))
+    return {id(n) for st in pre for n in ast.walk(st)}
+
+
 def mergeapp_facts():
     fn = os.path.join(REPO, 'nbdime', 'nbmergeapp.py')
     tree = ast.parse(open(fn, encoding='utf8').read())
@@ -108,7 +166,12 @@ def mergeapp_facts():
     if len(cf) != 1 or ast.unparse(cf[0].value).replace(' ', '') != '[dfordindecisionsifd.conflict]': fail('main_merge: definition of conflicted')
     last = mm.body[-1]
     if not (isinstance(last, ast.Return) and is_name(last.value, rc[0])): fail('main_merge: last statement is not `return %s`' % rc[0])
-    if any(isinstance(n, (ast.Try, ast.Raise)) for n in ast.walk(mm)): fail('main_merge: try/raise is not modelled')
+    guard = stdout_prelude(mm)      # ids of the nodes of the recognised is-stdout-UTF-8 guard (empty for the unguarded write)
+    if any(isinstance(n, (ast.Try, ast.Raise)) and id(n) not in guard for n in ast.walk(mm)): fail('main_merge: try/raise is not modelled')
+    for n in ast.walk(mm):          # the names the guard assigns are its own
+        if isinstance(n, ast.Name) and isinstance(n.ctx, (ast.Store, ast.Del)) and id(n) not in guard and \
+           n.id in {m.id for m in ast.walk(mm) if isinstance(m, ast.Name) and isinstance(m.ctx, ast.Store) and id(m) in guard}:
+            fail('main_merge: %s is assigned outside the stdout guard too' % n.id)
     F['rc_mode'], F['rc_conflict'], F['rc_clean'] = rc[1], rc[2], rc[3]
     # how the merged notebook reaches the output file
     wr = calls(mm, lambda f: is_attr(f, 'nbformat', 'write'))
@@ -117,6 +180,8 @@ def mergeapp_facts():
     for c in wr:
         if len(c.args) != 2 or not is_name(c.args[0], 'merged'): fail('nbformat.write call shape')
         t = c.args[1]
+        if c.keywords and not (is_attr(t, 'sys', 'stdout') and guard):       # (shape of that one keyword: stdout_prelude)
+            fail('nbformat.write with keyword arguments: %s' % ast.unparse(c))
         if is_name(t, inv['out']) and id(c) not in withs:
             via = 'WritePath' if via in (None, 'WritePath') else fail('two writes of the output')
         elif is_attr(t, 'sys', 'stdout'):
@@ -143,6 +208,9 @@ def mergeapp_facts():
     for c in calls(mm, lambda f: True):
         nm = ast.unparse(c.func)
         seen[nm] = seen.get(nm, 0) + 1
+        if id(c) in guard:
+            if nm not in STDOUT_PRELUDE_CALLS: fail('main_merge: call of %s in the stdout guard' % nm)
+            continue
         if nm not in allowed and not nm.startswith('logger.'):
             fail('main_merge: call of %s is not modelled' % nm)
     if seen.get('io.open', 0) + seen.get('open', 0) > 1 + (via == 'WriteOpened') or seen.get('nbformat.write', 0) != 2 or seen.get('json.dump', 0) > 1:
